@@ -366,3 +366,32 @@ pub proof fn lemma_sl_history_any_window(w0: World, steps: Seq<SlStep>, a: Addre
     assert(log.take(log.len() as int) =~= log);
     lemma_any_window_prefix(log, sl_limits(w0, steps, a, id), sl_data(w0, a, id).unwrap().period_ledgers, lo, bound, log.len() as int);
 }
+
+// ---- the policy used for other accounts / rules is a `Foreign` step for this (account, rule) ----
+pub proof fn lemma_sl_other_key_is_foreign(w: World, ctx: Context, limit: i128, p: SpendingLimitAccountParams, a: Address, id: u32, a2: Address, id2: u32)
+    requires a2 != a || id2 != id,
+    ensures
+        //@@ C14:spending.other_keys_untouched
+        sl_step_ok(w, SlStep::Foreign { w2: sl_enforce_post(w, ctx, id2, a2) }, a, id),
+        sl_step_ok(w, SlStep::Foreign { w2: sl_set_limit_post(w, limit, a2, id2) }, a, id),
+        sl_step_ok(w, SlStep::Foreign { w2: sl_install_post(w, p, a2, id2) }, a, id),
+        sl_step_ok(w, SlStep::Foreign { w2: sl_uninstall_post(w, a2, id2) }, a, id),
+{
+    broadcast use sdk_store;
+}
+/// effect of the configuration functions on the view of their own (account, rule)
+pub proof fn lemma_sl_configure(w: World, limit: i128, a: Address, id: u32)
+    requires sl_installed(w, a, id),
+    ensures
+        //@@ C14:spending.set_limit.effect
+        sl_data(sl_set_limit_post(w, limit, a, id), a, id) == Some(SpendingLimitData { spending_limit: limit, ..sl_data(w, a, id).unwrap() }),
+        //@@ C14:spending.uninstall.effect
+        !sl_installed(sl_uninstall_post(w, a, id), a, id),
+        forall|ctx: Context, n: nat| !#[trigger] sl_accepts(sl_uninstall_post(w, a, id), ctx, n, a, id),
+{
+    broadcast use sdk_store;
+    let d = sl_data(w, a, id).unwrap();
+    let d2 = SpendingLimitData { spending_limit: limit, period_ledgers: d.period_ledgers,
+        spending_history: d.spending_history, cached_total_spent: d.cached_total_spent };
+    lemma_sl_data_after_set(w_auth(w, a), a, id, d2);
+}
